@@ -509,6 +509,16 @@ template <class T> struct Runner {
     int64_t x2 = clampv(xs[(size_t)q.q.x2 % xs.size()]), y2 = clampv(ys[(size_t)q.q.y2 % ys.size()]);
     std::string when = fmt("query %d on r%d", idx, q.r);
     if (q.kind == 0) {
+      // contains_point takes plain ints also for 16-bit regions: in a third of the point queries the coordinates lie
+      // outside the region's coordinate type, in particular 65536 away from an edge (must not alias into the region)
+      if ((q.q.x2 % 3) == 0) {
+        int64_t sh = (q.q.y2 & 1) ? 65536 : -65536;
+        if (q.q.y2 & 2) x1 = xs[(size_t)q.q.x1 % xs.size()] + sh;
+        if (q.q.y2 & 4) y1 = ys[(size_t)q.q.y1 % ys.size()] + sh;
+        if (!(q.q.y2 & 6)) x1 = (q.q.y2 & 1) ? (int64_t)INT32_MAX - (q.q.x1 % 3) : (int64_t)INT32_MIN + (q.q.x1 % 3);
+        x1 = std::max<int64_t>(INT32_MIN, std::min<int64_t>(INT32_MAX, x1));
+        y1 = std::max<int64_t>(INT32_MIN, std::min<int64_t>(INT32_MAX, y1));
+      }
       box out;
       memset(&out, 0x5a, sizeof out);
       bool want = rr::contains(m, x1, y1);
